@@ -7,7 +7,7 @@ from fractions import Fraction
 from ..keval import KEval, Ref, Cond, Const, Top
 from ..poly import Poly, ZERO, ONE
 from ..forms import short
-from .. import wire
+from .. import wire, paths
 from ..model import norm_text, AnchorMissing
 from ..controls import Control
 from ..mutate import in_func
@@ -159,25 +159,23 @@ def evidence(ctx, p, K):
     m = c.methods.get("figure_of_merit")
     if m is None:
         raise AnchorMissing("FitDataset.figure_of_merit")
-    rets = wire.returns_of(m)
-    ev = [r for r in rets if norm_text(r.value) == "self.log_evidence"]
-    ok = len(ev) == 1
-    det = ""
-    if ok:
-        br = wire.enclosing_branches(m, ev[0])
-        det = str([(norm_text(i.test), t) for i, t in br])
-        ok = len(br) == 1 and br[0][1] and norm_text(br[0][0].test) == "self.inversion is not None"
-    ctx.ob(rule, m.key + ":evidence-branch", ok, where=m, node=ev[0] if ev else m.node, construct=det, message="the figure of merit must be the evidence exactly when an inversion is present (`self.inversion is not None`, nothing more)")
-    ll = [r for r in rets if norm_text(r.value) in ("self.log_likelihood", "self.log_likelihood.array")]
-    ctx.ob(rule, m.key + ":likelihood-branch", len(ll) >= 1 and len(ll) + len(ev) == len(rets), where=m, node=m.node, construct=str([norm_text(r.value) for r in rets]), message="without an inversion the figure of merit must be the log likelihood")
+    # decided on name-free path summaries (sa/paths.py): what each path returns, under which conditions
+    rets = paths.returns(paths.path_summaries(m) or [])
+    ev = [q for q in rets if q.text == "self.log_evidence"]
+    ok = len(ev) == 1 and ev[0].holds("self.inversion is not None") is True and len(ev[0].conds) == 1
+    ctx.ob(rule, m.key + ":evidence-branch", ok, where=m, node=ev[0].node if ev else m.node, construct=str(ev[0].conds) if ev else "", message="the figure of merit must be the evidence exactly when an inversion is present (`self.inversion is not None`, nothing more)")
+    ll = [q for q in rets if q.text in ("self.log_likelihood", "self.log_likelihood.array")]
+    ctx.ob(rule, m.key + ":likelihood-branch", len(ll) >= 1 and len(ll) + len(ev) == len(rets) and all(q.holds("self.inversion is not None") is False for q in ll), where=m, node=m.node, construct=str([q.text for q in rets]),
+           message="without an inversion the figure of merit must be the log likelihood")
     for pname in ("log_evidence", "log_likelihood_with_regularization"):
         mm = c.methods.get(pname)
         cs = [x for x in prop_calls(p, mm) if x[0] == "util"]
-        ok = len(cs) == 1
-        if ok:
-            br = wire.enclosing_branches(mm, cs[0][2])
-            ok = len(br) == 1 and br[0][1] and norm_text(br[0][0].test) == "self.inversion is not None"
-        ctx.ob(rule, f"{c.key}.{pname}:guard", ok, where=mm, node=cs[0][2] if cs else mm.node, construct="", message=f"{pname} must be evaluated when (and only when) an inversion is present")
+        PS = paths.path_summaries(mm) or []
+        util = [q for q in PS if q.kind == "return" and isinstance(q.value, ast.Call) and cs and norm_text(q.value.func) == norm_text(cs[0][2].func)]
+        other = [q for q in PS if q not in util]
+        ok = len(cs) == 1 and len(util) == 1 and util[0].holds("self.inversion is not None") is True and len(util[0].conds) == 1 \
+            and all(q.holds("self.inversion is not None") is False and (q.kind == "fall" or q.text == "None") for q in other)
+        ctx.ob(rule, f"{c.key}.{pname}:guard", ok, where=mm, node=cs[0][2] if cs else mm.node, construct=str([(q.kind, q.conds) for q in PS])[:200], message=f"{pname} must be evaluated when (and only when) an inversion is present")
     # inversion terms are formed from the *_reduced quantities (regularized parameters only)
     inv = p.cls("autoarray.inversion.inversion.abstract:AbstractInversion")
     rt = inv.methods.get("regularization_term")
@@ -195,14 +193,13 @@ def evidence(ctx, p, K):
             raise AnchorMissing(f"AbstractInversion.{name}")
         reads = {norm_text(n) for n in mm.body_nodes() if isinstance(n, ast.Attribute) and isinstance(n.value, ast.Name) and n.value.id == "self" and ("matrix" in n.attr) and "preloads" not in n.attr}
         ctx.ob(rule, mm.key + ":reduced", reads == {operand}, where=mm, node=mm.node, construct=str(sorted(reads)), message=f"the log-determinant must be taken of {operand} only (regularized parameters)")
-        # 2 * sum(log(diag(cholesky(X))))
-        chol = [c_ for c_ in mm.calls() if norm_text(c_.func).endswith("cholesky")]
-        good = len(chol) >= 1 and all(norm_text(c_.args[0]) == operand for c_ in chol)
-        for c_ in chol:
-            # enclosing expression: 2.0 * np.sum(np.log(np.diag(<chol>)))
-            par = [n for n in mm.body_nodes() if isinstance(n, ast.BinOp) and isinstance(n.op, ast.Mult) and any(x is c_ for x in ast.walk(n))]
-            good = good and len(par) >= 1 and any(any(norm_text(two) in ("2.0", "2") and norm_text(rest).replace(" ", "").startswith("np.sum(np.log(np.diag(np.linalg.cholesky(") for two, rest in ((b.left, b.right), (b.right, b.left))) for b in par)
-        ctx.ob(rule, mm.key + ":form", good, where=mm, node=chol[0] if chol else mm.node, construct=f"{len(chol)} cholesky-based evaluations", message="log det = 2 * sum(log(diag(cholesky(X))))")
+        # 2 * sum(log(diag(cholesky(X)))) - as canonical forms of what the paths return (temporaries substituted, factor order free)
+        from ..forms import expr_poly, src_poly
+        PS = paths.path_summaries(mm) or []
+        chol = [q for q in paths.returns(PS) if paths.calls_in(q.value, "cholesky")]
+        want = {src_poly(f"2.0 * {np_}.sum({np_}.log({np_}.diag({np_}.linalg.cholesky({operand}))))") for np_ in ("np", "numpy")}
+        good = len(chol) >= 1 and all(expr_poly(q.value) in want for q in chol)
+        ctx.ob(rule, mm.key + ":form", good, where=mm, node=(chol[0].node if chol else None) or mm.node, construct=f"{len(chol)} cholesky-based evaluations: " + "; ".join(q.text[:70] for q in chol), message="log det = 2 * sum(log(diag(cholesky(X))))")
     # the reduced quantities delete exactly the no-regularization rows AND columns
     for name, src in (("curvature_reg_matrix_reduced", "self.curvature_reg_matrix"), ("regularization_matrix_reduced", "self.regularization_matrix")):
         mm = inv.methods.get(name)
@@ -223,15 +220,16 @@ def snr(ctx, p):
         m = p.cls(ck).methods.get("signal_to_noise_map")
         if m is None:
             raise AnchorMissing(f"{ck}.signal_to_noise_map")
-        asg = [n for n in m.body_nodes() if isinstance(n, ast.Assign) and isinstance(n.targets[0], ast.Name) and isinstance(n.value, ast.BinOp) and isinstance(n.value.op, ast.Div)]
-        ok = len(asg) == 1 and norm_text(asg[0].value.left) == "self.data" and norm_text(asg[0].value.right) == "self.noise_map"
-        local = asg[0].targets[0].id if asg else None
-        writes = [n for n in m.body_nodes() if (isinstance(n, ast.Assign) and isinstance(n.targets[0], (ast.Subscript, ast.Attribute))) or isinstance(n, ast.AugAssign)]
-        good = len(writes) == 1 and isinstance(writes[0], ast.Assign) and isinstance(writes[0].targets[0], ast.Subscript) and norm_text(writes[0].targets[0].value) == local \
-            and norm_text(writes[0].targets[0].slice) == f"{local} < 0" and norm_text(writes[0].value) in ("0", "0.0")
-        rets = wire.returns_of(m)
-        ctx.ob(rule, m.key, ok and good and len(rets) == 1 and norm_text(rets[0].value) == local, where=m, node=writes[0] if writes else m.node,
-               construct="; ".join(norm_text(w)[:80] for w in writes), message="signal-to-noise = data / noise on a new array, negatives of THAT array clipped to 0; no other in-place write (the data itself must not be modified)")
+        PS = paths.path_summaries(m) or []
+        rets = paths.returns(PS)
+        base = "self.data/self.noise_map"
+        forms = (f"__store__({base},{base}<0,0)", f"__store__({base},{base}<0,0.0)", f"np.where({base}<0,0,{base})", f"np.where({base}<0,0.0,{base})", f"({base}).clip(min=0)", f"np.clip({base},0,None)", f"np.maximum({base},0)")
+        ok = len(PS) == 1 and len(rets) == 1 and rets[0].text in forms
+        # no store into anything that is not the fresh quotient
+        writes = [e for q in PS for e in q.effects if isinstance(e, ast.Assign)] + [n for n in m.body_nodes() if isinstance(n, ast.AugAssign)]
+        ctx.ob(rule, m.key, ok and not writes, where=m, node=(rets[0].node if rets else None) or m.node,
+               construct=(rets[0].text[:120] if rets else "") + ("; writes " + "; ".join(norm_text(w)[:60] for w in writes) if writes else ""),
+               message="signal-to-noise = data / noise on a new array, negatives of THAT array clipped to 0; no other in-place write (the data itself must not be modified)")
 
 
 def run(ctx):
